@@ -182,7 +182,7 @@ impl Prioritize {
                 stream.state.is_send_streaming() as i64,
                 stream.state.is_send_closed() as i64,
                 stream.state.is_closed() as i64,
-                stream.is_pending_open as i64,
+                (stream.is_pending_open as i64) | ((stream.is_pending_push as i64) << 1),
                 isize::from(stream.send_flow.window_size_raw()) as i64,
                 isize::from(stream.send_flow.available()) as i64,
                 stream.requested_send_capacity as i64,
@@ -276,7 +276,7 @@ impl Prioritize {
                 stream.state.is_send_streaming() as i64,
                 stream.state.is_send_closed() as i64,
                 stream.state.is_closed() as i64,
-                stream.is_pending_open as i64,
+                (stream.is_pending_open as i64) | ((stream.is_pending_push as i64) << 1),
                 isize::from(stream.send_flow.window_size_raw()) as i64,
                 isize::from(stream.send_flow.available()) as i64,
                 stream.requested_send_capacity as i64,
@@ -354,7 +354,7 @@ impl Prioritize {
                 stream.state.is_send_streaming() as i64,
                 stream.state.is_send_closed() as i64,
                 stream.state.is_closed() as i64,
-                stream.is_pending_open as i64,
+                (stream.is_pending_open as i64) | ((stream.is_pending_push as i64) << 1),
                 isize::from(stream.send_flow.window_size_raw()) as i64,
                 isize::from(stream.send_flow.available()) as i64,
                 stream.requested_send_capacity as i64,
@@ -420,7 +420,7 @@ impl Prioritize {
                 stream.state.is_send_streaming() as i64,
                 stream.state.is_send_closed() as i64,
                 stream.state.is_closed() as i64,
-                stream.is_pending_open as i64,
+                (stream.is_pending_open as i64) | ((stream.is_pending_push as i64) << 1),
                 isize::from(stream.send_flow.window_size_raw()) as i64,
                 isize::from(stream.send_flow.available()) as i64,
                 stream.requested_send_capacity as i64,
@@ -450,7 +450,7 @@ impl Prioritize {
                 stream.state.is_send_streaming() as i64,
                 stream.state.is_send_closed() as i64,
                 stream.state.is_closed() as i64,
-                stream.is_pending_open as i64,
+                (stream.is_pending_open as i64) | ((stream.is_pending_push as i64) << 1),
                 isize::from(stream.send_flow.window_size_raw()) as i64,
                 isize::from(stream.send_flow.available()) as i64,
                 stream.requested_send_capacity as i64,
@@ -542,7 +542,7 @@ impl Prioritize {
                 stream.state.is_send_streaming() as i64,
                 stream.state.is_send_closed() as i64,
                 stream.state.is_closed() as i64,
-                (stream.is_pending_open || stream.is_pending_push) as i64,
+                (stream.is_pending_open as i64) | ((stream.is_pending_push as i64) << 1),
                 isize::from(stream.send_flow.window_size_raw()) as i64,
                 isize::from(stream.send_flow.available()) as i64,
                 stream.requested_send_capacity as i64,
@@ -858,7 +858,7 @@ impl Prioritize {
                 stream.state.is_send_streaming() as i64,
                 stream.state.is_send_closed() as i64,
                 stream.state.is_closed() as i64,
-                stream.is_pending_open as i64,
+                (stream.is_pending_open as i64) | ((stream.is_pending_push as i64) << 1),
                 isize::from(stream.send_flow.window_size_raw()) as i64,
                 isize::from(stream.send_flow.available()) as i64,
                 stream.requested_send_capacity as i64,
@@ -961,7 +961,8 @@ impl Prioritize {
                                                 stream.state.is_send_streaming() as i64,
                                                 stream.state.is_send_closed() as i64,
                                                 stream.state.is_closed() as i64,
-                                                stream.is_pending_open as i64,
+                                                (stream.is_pending_open as i64)
+                                                    | ((stream.is_pending_push as i64) << 1),
                                                 isize::from(stream.send_flow.window_size_raw())
                                                     as i64,
                                                 isize::from(stream.send_flow.available()) as i64,
@@ -1042,7 +1043,8 @@ impl Prioritize {
                                         stream.state.is_send_streaming() as i64,
                                         stream.state.is_send_closed() as i64,
                                         stream.state.is_closed() as i64,
-                                        stream.is_pending_open as i64,
+                                        (stream.is_pending_open as i64)
+                                            | ((stream.is_pending_push as i64) << 1),
                                         isize::from(stream.send_flow.window_size_raw()) as i64,
                                         isize::from(stream.send_flow.available()) as i64,
                                         stream.requested_send_capacity as i64,
